@@ -3,6 +3,7 @@ package verifsim
 import (
 	"fmt"
 	"sort"
+	"strconv"
 	"strings"
 	"testing/synctest"
 
@@ -12,13 +13,29 @@ import (
 	"github.com/sourcenetwork/defradb/client"
 )
 
-// nodeFields: the fields the node's active schema version has.
-func (r *e1Run) nodeFields(node int) []fieldSpec {
-	fs := append([]fieldSpec{}, userFields...)
-	if node < len(r.nodeVer) {
-		fs = append(fs, extraFields[:r.nodeVer[node]]...)
+// versionExtras: the extra fields of a version key ("" root, "0,1", "1" ...), in the order they were added.
+func versionExtras(key string) []fieldSpec {
+	var fs []fieldSpec
+	if key == "" {
+		return fs
+	}
+	for _, p := range strings.Split(key, ",") {
+		k, _ := strconv.Atoi(p)
+		fs = append(fs, extraFields[k])
 	}
 	return fs
+}
+
+func versionFields(key string) []fieldSpec {
+	return append(append([]fieldSpec{}, userFields...), versionExtras(key)...)
+}
+
+// nodeFields: the fields the node's active schema version has.
+func (r *e1Run) nodeFields(node int) []fieldSpec {
+	if node < len(r.nodeActive) {
+		return versionFields(r.nodeActive[node])
+	}
+	return append([]fieldSpec{}, userFields...)
 }
 
 // hiddenField: a field for which the node carries no expectation, because a
@@ -50,17 +67,23 @@ func (r *e1Run) taintOnMerge(node int, newly map[int]bool) {
 // projectCommon keeps the fields every node's active version has and that are
 // untainted on every node.
 func (r *e1Run) projectCommon(m map[string]map[string]any) map[string]map[string]any {
-	minVer := len(extraFields)
-	for _, v := range r.nodeVer {
-		if v < minVer {
-			minVer = v
+	count := map[string]int{}
+	for n := range r.nodes {
+		for _, f := range r.nodeFields(n) {
+			count[f.Name]++
+		}
+	}
+	var common []fieldSpec
+	for _, f := range append(append([]fieldSpec{}, userFields...), extraFields...) {
+		if count[f.Name] == len(r.nodes) {
+			common = append(common, f)
 		}
 	}
 	out := map[string]map[string]any{}
 	for id, row := range m {
 		nr := map[string]any{"_docID": row["_docID"], "_deleted": row["_deleted"]}
 		slot := r.slotOf[id]
-		for _, f := range append(append([]fieldSpec{}, userFields...), extraFields[:minVer]...) {
+		for _, f := range common {
 			hidden := false
 			for n := range r.nodes {
 				if r.hiddenField(n, slot, f.Name) {
@@ -77,7 +100,8 @@ func (r *e1Run) projectCommon(m map[string]map[string]any) map[string]map[string
 }
 
 // snapshotForSchema: values, ids and commit history of all documents as seen by the node.
-func (r *e1Run) snapshotForSchema(node int, fields []fieldSpec, pat int) (string, string) {
+// known: the versions the node knew before the schema change under examination.
+func (r *e1Run) snapshotForSchema(node int, fields []fieldSpec, known map[string]bool) (string, string) {
 	sel := "_docID _deleted"
 	for _, f := range fields {
 		sel += " " + f.Name
@@ -96,7 +120,8 @@ func (r *e1Run) snapshotForSchema(node int, fields []fieldSpec, pat int) (string
 		// the commits query resolves each commit's schema version: only asked where the node knows them all
 		knowsAll := true
 		for c := range r.merged[node][slot] {
-			if r.commits[c].Version > pat {
+			mc := r.commits[c]
+			if mc.Origin != node && !known[r.versionIDOf(mc)] {
 				knowsAll = false
 			}
 		}
@@ -112,79 +137,127 @@ func (r *e1Run) snapshotForSchema(node int, fields []fieldSpec, pat int) (string
 	return docs + "|" + strings.Join(hist, "|"), ""
 }
 
+// versionIDOf: the schema version id the commit was written under.
+func (r *e1Run) versionIDOf(mc *mCommit) string {
+	if mc.Origin < len(r.nodeKnown) {
+		return r.nodeKnown[mc.Origin][mc.VerKey]
+	}
+	return ""
+}
+
+func fieldNames(fs []fieldSpec) map[string]bool {
+	m := map[string]bool{}
+	for _, f := range fs {
+		m[f.Name] = true
+	}
+	return m
+}
+
 func (r *e1Run) doSchema(step, node, kind, arg int) {
 	nd := r.nodes[node]
 	before := r.nodeFields(node)
-	pat0 := r.nodePat[node]
-	snapBefore, err := r.snapshotForSchema(node, before, pat0)
+	knownBefore := map[string]bool{}
+	for _, vid := range r.nodeKnown[node] {
+		knownBefore[vid] = true
+	}
+	active := r.nodeActive[node]
+	what := ""
+	common := before // the fields both the old and the new active version have
+	var apply func() bool
+	switch mod(kind, 3) {
+	case 0, 1:
+		// add the next field to the ACTIVE version; if that is not the latest one, the versions branch
+		if r.nodeNext[node] >= len(extraFields) {
+			r.res.logf("step %d schema patch skipped on n%d", step, node)
+			return
+		}
+		k := r.nodeNext[node]
+		activate := mod(kind, 3) == 0
+		newKey := strconv.Itoa(k)
+		if active != "" {
+			newKey = active + "," + newKey
+		}
+		what = fmt.Sprintf("patch add %s to [%s] activate=%v", extraFields[k].Name, active, activate)
+		apply = func() bool {
+			patch := fmt.Sprintf(`[{"op":"add","path":"/User/Fields/-","value":{"Name":%q,"Kind":%d}}]`, extraFields[k].Name, extraKinds[k])
+			if e := nd.DB.PatchSchema(nd.reqCtx(), patch, immutable.None[model.Lens](), activate); e != nil {
+				r.res.violate("C19", "patch-failed", "", step, "node %d add field %s: %v", node, extraFields[k].Name, e)
+				return false
+			}
+			r.nodeNext[node]++
+			// learn the id of the new version: the one whose fields are exactly those of newKey
+			ss, e := nd.DB.GetSchemas(nd.reqCtx(), client.SchemaFetchOptions{Name: immutable.Some("User")})
+			if e != nil {
+				r.res.HarnessErr = "GetSchemas: " + e.Error()
+				return false
+			}
+			want := fieldNames(versionFields(newKey))
+			var vid string
+			for _, sd := range ss {
+				if knownBefore[sd.VersionID] {
+					continue
+				}
+				names := map[string]bool{}
+				for _, f := range sd.Fields {
+					if f.Name != "_docID" {
+						names[f.Name] = true
+					}
+				}
+				if canon(sortedKeys(names)) == canon(sortedKeys(want)) {
+					vid = sd.VersionID
+				}
+			}
+			if vid == "" {
+				r.res.HarnessErr = fmt.Sprintf("could not identify the new schema version [%s] among %d", newKey, len(ss))
+				return false
+			}
+			if len(r.nodeKnown[node]) > 1 && len(newKey) <= len(r.latestKey(node, newKey)) {
+				r.res.Stats["schema_patches_branching"]++
+			}
+			r.nodeKnown[node][newKey] = vid
+			if activate {
+				r.nodeActive[node] = newKey
+			}
+			r.res.Stats["schema_patches"]++
+			return true
+		}
+	case 2:
+		keys := sortedKeys(r.nodeKnown[node])
+		if len(keys) < 2 {
+			return
+		}
+		to := keys[mod(arg, len(keys))]
+		if to == active {
+			to = keys[mod(arg+1, len(keys))]
+		}
+		what = fmt.Sprintf("switch active [%s] -> [%s]", active, to)
+		tf := fieldNames(versionFields(to))
+		common = nil
+		for _, f := range before {
+			if tf[f.Name] {
+				common = append(common, f)
+			}
+		}
+		apply = func() bool {
+			if e := nd.DB.SetActiveSchemaVersion(nd.reqCtx(), r.nodeKnown[node][to]); e != nil {
+				r.res.violate("C19", "set-active-failed", "", step, "node %d switch to version [%s]: %v", node, to, e)
+				return false
+			}
+			r.nodeActive[node] = to
+			r.res.Stats["schema_switches"]++
+			return true
+		}
+	}
+	verb := what[:strings.Index(what+" ", " ")]
+	snapBefore, err := r.snapshotForSchema(node, common, knownBefore)
 	if err != "" {
 		r.res.violate("C19", "query-failed-before-schema-change", "", step, "node %d: %s", node, err)
 		return
 	}
-	// per prefix of the field list, for switches to an older version
-	beforeByLen := map[int]string{}
-	for l := len(userFields); l <= len(before); l++ {
-		beforeByLen[l], _ = r.snapshotForSchema(node, before[:l], pat0)
+	if !apply() {
+		return
 	}
-	what := ""
-	switch mod(kind, 3) {
-	case 0, 1:
-		// add the next field; only on top of the node's latest version so that all nodes build the same chain
-		if r.nodePat[node] >= len(extraFields) || r.nodeVer[node] != r.nodePat[node] {
-			r.res.logf("step %d schema patch skipped on n%d", step, node)
-			return
-		}
-		k := r.nodePat[node]
-		activate := mod(kind, 3) == 0
-		patch := fmt.Sprintf(`[{"op":"add","path":"/User/Fields/-","value":{"Name":%q,"Kind":%d}}]`, extraFields[k].Name, extraKinds[k])
-		if e := nd.DB.PatchSchema(nd.reqCtx(), patch, immutable.None[model.Lens](), activate); e != nil {
-			r.res.violate("C19", "patch-failed", "", step, "node %d add field %s: %v", node, extraFields[k].Name, e)
-			return
-		}
-		r.nodePat[node]++
-		if activate {
-			r.nodeVer[node] = r.nodePat[node]
-		}
-		// learn the id of the new version
-		ss, e := nd.DB.GetSchemas(nd.reqCtx(), client.SchemaFetchOptions{Name: immutable.Some("User")})
-		if e != nil {
-			r.res.HarnessErr = "GetSchemas: " + e.Error()
-			return
-		}
-		var vid string
-		for _, sd := range ss {
-			if len(sd.Fields) == len(userFields)+1+r.nodePat[node] { // +_docID
-				vid = sd.VersionID
-			}
-		}
-		if vid == "" {
-			r.res.HarnessErr = fmt.Sprintf("could not identify new schema version among %d", len(ss))
-			return
-		}
-		if len(r.versions) <= r.nodePat[node] {
-			r.versions = append(r.versions, vid)
-		} else if r.versions[r.nodePat[node]] != vid {
-			r.res.HarnessErr = "precondition: nodes disagree on schema version id"
-			return
-		}
-		what = fmt.Sprintf("patch add %s activate=%v", extraFields[k].Name, activate)
-		r.res.Stats["schema_patches"]++
-	case 2:
-		if r.nodePat[node] == 0 {
-			return
-		}
-		to := mod(arg, r.nodePat[node]+1)
-		if to == r.nodeVer[node] {
-			to = mod(to+1, r.nodePat[node]+1)
-		}
-		if e := nd.DB.SetActiveSchemaVersion(nd.reqCtx(), r.versions[to]); e != nil {
-			r.res.violate("C19", "set-active-failed", "", step, "node %d switch to version %d: %v", node, to, e)
-			return
-		}
-		what = fmt.Sprintf("switch active %d -> %d", r.nodeVer[node], to)
-		r.nodeVer[node] = to
-		r.res.Stats["schema_switches"]++
-	}
+	r.schemaOps++
 	synctest.Wait()
 	nd.TakeUpdates()
 	r.res.logf("step %d schema n%d %s", step, node, what)
@@ -194,6 +267,10 @@ func (r *e1Run) doSchema(step, node, kind, arg int) {
 		r.res.violate("C19", "unreadable-after-schema-change", "collections", step, "node %d after %s: GetCollections: %v", node, what, e)
 		return
 	} else {
+		byID := map[string]string{}
+		for k, vid := range r.nodeKnown[node] {
+			byID[vid] = "[" + k + "]"
+		}
 		var ids []string
 		all := acts
 		acts = nil
@@ -202,42 +279,68 @@ func (r *e1Run) doSchema(step, node, kind, arg int) {
 				continue
 			}
 			acts = append(acts, c)
-			ids = append(ids, fmt.Sprint(indexOf(r.versions, c.Version().VersionID)))
+			ids = append(ids, byID[c.Version().VersionID])
 		}
 		sort.Strings(ids)
-		if len(acts) != 1 || acts[0].Version().VersionID != r.versions[r.nodeVer[node]] {
-			r.res.violate("C19", "active-version-wrong", what[:strings.Index(what+" ", " ")], step,
-				"node %d after %s: active versions %v, want exactly [%d]", node, what, ids, r.nodeVer[node])
+		if len(acts) != 1 || acts[0].Version().VersionID != r.nodeKnown[node][r.nodeActive[node]] {
+			r.res.violate("C19", "active-version-wrong", verb, step,
+				"node %d after %s: active versions %v, want exactly [%s]", node, what, ids, r.nodeActive[node])
 			return
 		}
 	}
 	// (a) values, identifiers and history of existing documents unchanged (fields both versions have)
-	common := before
-	if after := r.nodeFields(node); len(after) < len(common) {
-		common = after
-	}
-	snapAfter, err := r.snapshotForSchema(node, common, pat0)
+	snapAfter, err := r.snapshotForSchema(node, common, knownBefore)
 	if err != "" {
-		r.res.violate("C19", "unreadable-after-schema-change", what[:strings.Index(what+" ", " ")], step, "node %d after %s: %s", node, what, err)
+		r.res.violate("C19", "unreadable-after-schema-change", verb, step, "node %d after %s: %s", node, what, err)
 		return
 	}
-	if len(common) != len(before) {
-		snapBefore = beforeByLen[len(common)]
-	}
 	if snapAfter != snapBefore {
-		r.res.violate("C19", "data-changed-by-schema-change", what[:strings.Index(what+" ", " ")], step,
+		r.res.violate("C19", "data-changed-by-schema-change", verb, step,
 			"node %d %s: before=%s after=%s", node, what, short(snapBefore), short(snapAfter))
 		return
 	}
 	// (b) readable under the active version, added fields null / previously written values back
 	r.checkNode(step, node, "schema change: "+what)
-}
-
-func indexOf(xs []string, x string) int {
-	for i, y := range xs {
-		if y == x {
-			return i
+	// (c) the history stays readable: a read at a commit the node wrote itself (under whatever version was
+	// active then) still works under the version that is active now
+	if len(r.res.Viols) == 0 {
+		for slot := 0; slot < r.p.cfg("docs", 1); slot++ {
+			var own []int
+			for c := range r.merged[node][slot] {
+				anc := map[int]bool{}
+				r.ancestors(c, anc)
+				local := true
+				for a := range anc {
+					if r.commits[a].Origin != node {
+						local = false
+					}
+				}
+				if local && !r.expect(anc).Deleted {
+					own = append(own, c)
+				}
+			}
+			if len(own) == 0 {
+				continue
+			}
+			sort.Ints(own)
+			c := r.commits[own[len(own)-1]]
+			if _, err := r.queryAt(node, slot, c); err != "" {
+				r.res.violate("C19", "history-unreadable-after-schema-change", verb, step,
+					"node %d after %s: read of doc %d at its own commit#%d (written under version [%s]): %s", node, what, slot, c.Idx, c.VerKey, err)
+				return
+			}
+			r.res.Stats["reads_at_commit_after_schema_change"]++
 		}
 	}
-	return -1
+}
+
+// latestKey: the longest version key of the node other than newKey (used for a statistic only).
+func (r *e1Run) latestKey(node int, newKey string) string {
+	best := ""
+	for k := range r.nodeKnown[node] {
+		if k != newKey && len(k) >= len(best) {
+			best = k
+		}
+	}
+	return best
 }
